@@ -331,15 +331,15 @@ func historySteps(family string, n int, seed uint64) []encStep {
 	case "env", "cfca":
 		classes = []string{"sm2-uniform", "sm2-lz1", "sm2-n-2", "sm2-top", "sm2-d1"}
 	case "sec1":
-		classes = []string{"sm2-lz2", "p256-uniform", "sm2-uniform", "p384-lz1"}
+		classes = []string{"sm2-lz2", "p256-uniform", "sm2-uniform", "p384-lz1", "p521-lz1", "p224-uniform", "p521-top"}
 	case "pkcs1":
-		classes = []string{"rsa-1024", "rsa-2048", "rsa-1024", "rsa-1024"}
+		classes = []string{"rsa-1024", "rsa-2048", "rsa-3072", "rsa-1024"}
 	case "sm9-asn1":
 		classes = []string{"sm9-signuser", "sm9-signuser", "sm9-encmaster", "sm9-encmaster"}
 	case "sm9-raw":
 		classes = []string{"sm9-encuser", "sm9-encuser", "sm9-signmasterpub", "sm9-signmasterpub"}
 	default:
-		classes = []string{"sm2-lz1", "sm9-signuser", "p256-lz1", "ecdh-uniform", "rsa-1024", "sm9-encmaster-lz1", "sm2-uniform", "sm9-encuser"}
+		classes = []string{"sm2-lz1", "sm9-signuser", "p256-lz1", "ecdh-uniform", "rsa-1024", "sm9-encmaster-lz1", "sm2-uniform", "sm9-encuser", "p521-lz1", "p224-uniform"}
 	}
 	steps := make([]encStep, n)
 	for i := range steps {
@@ -507,7 +507,7 @@ func TestC14_HistoryDecode(t *testing.T) {
 	observeOnce()
 	h.MarkExhaustive("history-decode-repeat")
 	ks := keySeeds(8)[7]
-	keys := []string{"sm2-lz1", "sm9-signuser", "p256-lz1", "ecdh-uniform", "rsa-1024", "sm9-encmaster-lz1", "sm2-uniform", "sm9-encuser", "p384-uniform", "sm2-n-2"}
+	keys := []string{"sm2-lz1", "sm9-signuser", "p256-lz1", "ecdh-uniform", "rsa-1024", "sm9-encmaster-lz1", "sm2-uniform", "sm9-encuser", "p384-uniform", "sm2-n-2", "p521-lz1", "p224-lz1", "p521-top"}
 	h.Sweep(t, h.P{Name: "history-decode-repeat"}, func(emit func(decHistCase)) {
 		i := 0
 		withSecret := func(s cspec) {
@@ -535,7 +535,7 @@ func TestC14_HistoryDecode(t *testing.T) {
 				Salt: saltSizes[i%5], Iter: iterFor(i), ESeed: gen.Mix(h.Seed, 0xd3e, uint64(i))})
 		}
 		for _, kc := range allPrivateClasses() {
-			if kc == "rsa-2048" && !h.Thorough() {
+			if (kc == "rsa-2048" || deepClasses[kc]) && !h.Thorough() {
 				continue
 			}
 			for _, sch := range pbes1Names {
